@@ -21,7 +21,7 @@ Proof.
 Qed.
 
 Lemma frame_tape s s' : frame s s' → tape s' = tape s.
-Proof. by intros (_&_&_&?). Qed.
+Proof. by intros (_&_&_&?&_). Qed.
 Lemma frame_roots s s' : frame s s' → roots s' = roots s.
 Proof. by intros (_&_&?&_). Qed.
 
@@ -34,7 +34,7 @@ Context (HI0 : Inv r0) (HC0 : Counts r0 L).
 Lemma declare_off_run :
   ∃ r1, declare vl.*1 (r0 <| last_len := None |>) = (Ok tt, r1) ∧
     Inv r1 ∧ Counts r1 L ∧ last_len r1 = None ∧ rctx r1 = rctx r0 ∧
-    tape r1 = tape r0 ∧ roots r1 = roots r0 ∧
+    tape r1 = tape r0 ∧ roots r1 = roots r0 ∧ max_nodes r1 = max_nodes r0 ∧
     vars r0 ⊆ vars r1 ∧
     (∀ v, is_Some (vars r1 !! v) ↔ is_Some (vars r0 !! v) ∨ is_Some (vars s !! v)) ∧
     (∀ u, valid r0 u → valid r1 u ∧ ∀ ρ, denv r1 u ρ = denv r0 u ρ).
@@ -45,9 +45,9 @@ Proof.
   destruct (declare vl.*1 ra) as [rd r1] eqn:Ed.
   destruct (declare_run _ ra rd r1 HIa Ed) as (->&HI1&Hf1&HC1&Hd1&Hsub1&Hin1&_).
   exists r1. split; [done|]. split; [done|]. split; [by apply HC1|].
-  pose proof Hf1 as (El&Er&Ero&Et).
+  pose proof Hf1 as (El&Er&Ero&Et&Emx).
   split; [by rewrite El|]. split; [by rewrite Er|]. split; [by rewrite Et|].
-  split; [by rewrite Ero|]. split; [exact Hsub1|]. split.
+  split; [by rewrite Ero|]. split; [by rewrite Emx|]. split; [exact Hsub1|]. split.
   - intros v. split.
     + intros Hv. destruct (declare_dom _ ra _ r1 HIa Ed v Hv) as [?|Hin]; [by left|right].
       apply elem_of_list_fmap in Hin as ([v' l]&->&Hin). exists l. by apply Hvl.
@@ -65,7 +65,7 @@ End recv.
 Theorem json_load_true_any s roots vorder jf r0 H n L :
   Inv s → json_file s roots vorder jf → roots ≠ RNone →
   Forall (valid s) (roots_values roots) →
-  Inv r0 → Counts r0 L → tape r0 = [] →
+  Inv r0 → max_nodes r0 = None → Counts r0 L → tape r0 = [] →
   (∀ u, u ∈ Base.roots r0 → held L u) →
   (∀ v, is_Some (vars r0 !! v) → is_Some (vars s !! v)) →
   ∃ r3 us,
@@ -78,10 +78,11 @@ Theorem json_load_true_any s roots vorder jf r0 H n L :
     Forall2 (same_fun s r') (roots_values roots) us ∧
     Counts r' (ledger_add L us).
 Proof.
-  intros HIs Hjf Hnone Hr HI0 HC0 Ht Hroots Hsub.
+  intros HIs Hjf Hnone Hr HI0 Hmx0 HC0 Ht Hroots Hsub.
   pose proof Hjf as (_&_&Hvl&_).
   destruct (declare_off_run s (jf_levels jf) Hvl r0 L HI0 HC0)
-    as (r1&Ed&HI1&HC1&Hoff1&Hrc1&Ht1&Hro1&Hsub1&Hdom1&Hold1).
+    as (r1&Ed&HI1&HC1&Hoff1&Hrc1&Ht1&Hro1&Emx1&Hsub1&Hdom1&Hold1).
+  assert (Hmx1 : max_nodes r1 = None) by (by rewrite Emx1).
   (* the variables of [r1] are exactly those of the file *)
   assert (Hd : dom (vars s) = dom (vars r1)).
   { apply stdpp.sets.set_eq. intros v. rewrite !elem_of_dom, Hdom1. split; [by right|].
@@ -91,16 +92,18 @@ Proof.
   destruct (reorder_order_ok (list_to_map (reverse (jf_levels jf))) r1 L HI1 HC1 Hoff1)
     as (r2&Ere&HI2&Ev2&Hoff2&HC2&Hk2&Hrr2&Ht2).
   { by rewrite Ht1. }
+  { exact Hmx1. }
   { by rewrite Eo. }
   { rewrite Eo. intros v v' l. by apply (vars_inj s). }
   { rewrite Eo. intros v l Hv. rewrite Hn. by apply (name_level s v l). }
   { rewrite Hro1. exact Hroots. }
   rewrite Eo in Ev2.
+  assert (Hmx2 : max_nodes r2 = None) by (by rewrite (rr_max_nodes _ _ Hrr2)).
   destruct (json_load_true s roots vorder jf r0 H n r1 r2 L HIs Hjf Hnone Hr Ed Ere HI2 Ev2
-              Hoff2 HC2) as (r3&us&E&HI'&G&He&HF&HC').
+              Hoff2 Hmx2 HC2) as (r3&us&E&HI'&G&He&HF&HC').
   exists r3, us. cbn zeta in *. split; [exact E|]. split; [done|].
-  destruct G as [(_&Ev3&_) (_&Erc3&Ero3&Et3)].
-  injection Hrr2 as Erc2 Ero2.
+  destruct G as [(_&Ev3&_) (_&Erc3&Ero3&Et3&_)].
+  injection Hrr2 as Erc2 Ero2 _.
   split; [cbn; congruence|]. split; [cbn; congruence|]. split; [cbn; congruence|].
   split; [cbn; congruence|]. split; [|done].
   intros u Hu. pose proof (held_valid L r0 u HI0 HC0 Hu) as Hu0.
@@ -113,7 +116,7 @@ Qed.
 Theorem json_roundtrip_true_any s roots vorder jf sd b L :
   Inv s → Forall (valid s) (roots_values roots) →
   dump_json roots vorder s = (Ok jf, sd) →
-  Inv (mgr b) → Counts (mgr b) L → tape (mgr b) = [] →
+  Inv (mgr b) → max_nodes (mgr b) = None → Counts (mgr b) L → tape (mgr b) = [] →
   (∀ h u, handles b !! h = Some u → held L u) →
   (∀ u, u ∈ Base.roots (mgr b) → held L u) →
   (∀ v, is_Some (vars (mgr b) !! v) → is_Some (vars s !! v)) →
@@ -134,12 +137,12 @@ Theorem json_roundtrip_true_any s roots vorder jf sd b L :
     Forall2 (same_fun s (mgr b')) (roots_values roots) us ∧
     Counts (mgr b') (ledger_add L us).
 Proof.
-  intros HIs Hr Hd HIb HC Ht Hh Hroots Hsub.
+  intros HIs Hr Hd HIb Hmx HC Ht Hh Hroots Hsub.
   assert (Hnone : roots ≠ RNone).
   { intros ->. by apply dump_json_none in Hd. }
   destruct (dump_json_spec s HIs roots vorder jf sd Hr Hd) as [-> Hjf].
   split; [done|]. destruct b as [r0 H n]. cbn [mgr handles next_hid] in *.
-  destruct (json_load_true_any s roots vorder jf r0 H n L HIs Hjf Hnone Hr HIb HC Ht Hroots Hsub)
+  destruct (json_load_true_any s roots vorder jf r0 H n L HIs Hjf Hnone Hr HIb Hmx HC Ht Hroots Hsub)
     as (r3&us&E&HI'&Ev&Erc&Et&_&Hold&HF&HC').
   cbn zeta in *.
   assert (Hlen : length us = length (roots_values roots))
@@ -167,7 +170,7 @@ Theorem json_load_true_extra_var s roots vorder jf r0 H n L x :
 Proof.
   intros HIs Hjf HI0 HC0 Hx Hxs. pose proof Hjf as (_&_&Hvl&_).
   destruct (declare_off_run s (jf_levels jf) Hvl r0 L HI0 HC0)
-    as (r1&Ed&HI1&HC1&Hoff1&_&_&_&Hsub1&Hdom1&Hold1).
+    as (r1&Ed&HI1&HC1&Hoff1&_&_&_&_&Hsub1&Hdom1&Hold1).
   exists r1. split; [done|]. split; [|by split_and!].
   pose proof (order_of_file s (jf_levels jf) HIs Hvl) as Eo.
   assert (Hlt : nvars s < nvars r1).
